@@ -101,6 +101,27 @@ func consume(r io.Reader) ([]byte, error) {
 	return lg.data, nil
 }
 
+// doubler yields every byte of r twice, taking at most 256 bytes of r at a time
+type doubler struct {
+	r   io.Reader
+	tmp [256]byte
+}
+
+func (d *doubler) Read(p []byte) (int, error) {
+	n := len(p) / 2
+	if n > len(d.tmp) {
+		n = len(d.tmp)
+	}
+	if n == 0 {
+		return 0, nil
+	}
+	m, err := d.r.Read(d.tmp[:n])
+	for i := 0; i < m; i++ {
+		p[2*i], p[2*i+1] = d.tmp[i], d.tmp[i]
+	}
+	return 2 * m, err
+}
+
 var warmPhase bool
 
 func beforeEcho(c context.Context, ctx *app.RequestContext) {
@@ -110,6 +131,26 @@ func beforeEcho(c context.Context, ctx *app.RequestContext) {
 	}
 	if curProg.Form && ctx.Request.IsBodyStream() {
 		ctx.MultipartForm() //nolint:errcheck
+	}
+	if curProg.Via == "wrapped-body" && ctx.Request.IsBodyStream() {
+		// a decoding middleware: it puts a reader of its own around the body stream (one that yields more bytes than
+		// it takes, in small steps, as a decompressor does) and sets it as the request's body stream; the handler
+		// then takes the body with Request.Body()
+		ctx.Request.SetBodyStream(&doubler{r: ctx.RequestBodyStream()}, -1)
+		b, err := ctx.Request.BodyE()
+		curLog.viaBody = true
+		var first, second []byte
+		for i := 0; i+1 < len(b); i += 2 {
+			first, second = append(first, b[i]), append(second, b[i+1])
+		}
+		curLog.data = first
+		if !bytes.Equal(first, second) || len(b)%2 != 0 {
+			curLog.data = append([]byte("<the wrapper's output came back altered>"), b...)
+		}
+		curLog.err = err
+		if err == nil {
+			curLog.err, curLog.extraErr = io.EOF, io.EOF
+		}
 	}
 	if curProg.Via == "body" && ctx.Request.IsBodyStream() {
 		b, err := ctx.Request.BodyE()
@@ -409,8 +450,11 @@ func genProgram(t *rapid.T, bodyLen int, chunkEnds []int) Program {
 	if p.Stop < -1 {
 		p.Stop = 0
 	}
-	if rapid.IntRange(0, 5).Draw(t, "viaRequestBody") == 0 {
+	switch rapid.IntRange(0, 11).Draw(t, "viaRequestBody") {
+	case 0, 1:
 		p.Via, p.Stop = "body", -1
+	case 2, 3:
+		p.Via, p.Stop = "wrapped-body", -1
 	}
 	p.Drop = rapid.SampledFrom([]string{"", "", "", "SetBodyString", "ResetBody", "CloseBodyStream", "SetBodyStream"}).Draw(t, "drop")
 	return p
